@@ -935,6 +935,20 @@ impl<'a> World<'a> {
                 }
             }
         }
+        // known: the Json equality filter compares the text SQLite extracts (`->>`) with the parameter text,
+        // so a stored JSON *string* whose content is the text of the probe value matches it
+        if ty == Ty::Json && missing.is_empty() && !extra.is_empty() {
+            if let Val::J(pj) = probe {
+                let ptext = pj.text();
+                let all_strings = extra.iter().all(|t| {
+                    self.rows.iter().any(|r| r.tag == **t && matches!(self.effective(r), Val::J(JVal::Str(ref s)) if *s == ptext))
+                });
+                if all_strings {
+                    o.violation(format!("json-filter-string-equals-text-of-value{}", via), detail);
+                    return;
+                }
+            }
+        }
         let kind = if !missing.is_empty() { "miss" } else { "extra" };
         o.violation(format!("{}-{}:{}:{}{}", what, kind, ty.name(), form_class(form), via), detail);
     }
